@@ -12,6 +12,10 @@ import Driver.Util
                      `heap`: cells allocated, `reach`: cells in the canonical form
     * `pickle-canon` `heap`, `root` → `ok`: canonical form
     * `pickle-dump`  `heap`, `root` → `ok`: the opcode list of the abstract pickler
+    * `pickle-snapshot` `ops` → `ok`: the C16 snapshot (`harness/snapshot.py` tree, the model's `snapshot` op) read off the heap the
+                     Lean unpickler decodes from the opcodes (`snapshotOfHeap`)
+    * `pickle-supported` `heap`, `root` → `ok`: `supportedB heap root` — the decidable form of the hypothesis `Supported` of theorem
+                     `roundtrip` (`supportedB_sound`): when true, the round trip of this heap is PROVED, not only evaluated
     * `pickle-roundtrip` `heap`, `root` → `ok`: `canon (run (dump heap root)) = canon heap root` (an instance of theorem
                      `roundtrip`, evaluated) -/
 open Lean
@@ -141,6 +145,34 @@ def pairsOf (j : Json) : List (String × String) :=
       | _ => none)
   | _ => []
 
+def baseJ (b : String × Bool × Int) : Json := Json.arr #[Json.str b.1, Json.bool b.2.1, Json.num (Lean.JsonNumber.fromInt b.2.2)]
+def itemJ (i : String × Bool) : Json := Json.arr #[Json.str i.1, Json.bool i.2]
+def strsJ (l : List String) : Json := Json.arr (l.map Json.str).toArray
+def intJ (z : Int) : Json := Json.num (Lean.JsonNumber.fromInt z)
+
+/-- same shape as `FinishOps.compSnap` (the model's own `snapshot`), except `opt`: the number as it is in the heap
+    (`["float", hex]` / `["int", decimal]`), formatted with `"%f"` by the harness -/
+def snapCompJ (s : SnapComp) : Json :=
+  Json.mkObj [
+    ("pfx", Json.str s.pfx),
+    ("seqs", Json.arr (s.seqs.map (fun e => Json.mkObj [("name", Json.str e.name), ("sup", Json.bool e.sup), ("len", intJ e.len),
+        ("const", Json.str e.const), ("items", Json.arr (e.items.map itemJ).toArray),
+        ("bases", Json.arr (e.bases.map baseJ).toArray)])).toArray),
+    ("strands", Json.arr (s.strands.map (fun e => Json.mkObj [("name", Json.str e.name), ("dummy", Json.bool e.dummy), ("len", intJ e.len),
+        ("items", Json.arr (e.items.map itemJ).toArray), ("bases", Json.arr (e.bases.map baseJ).toArray)])).toArray),
+    ("structs", Json.arr (s.structs.map (fun e => Json.mkObj [("name", Json.str e.name), ("strands", strsJ e.strands),
+        ("struct", Json.str e.struct), ("opt", tagJson e.opt),
+        ("bases", Json.arr (e.bases.map baseJ).toArray)])).toArray),
+    ("kinetics", Json.arr (s.kins.map (fun k => Json.mkObj [("name", Json.str k.1), ("ins", strsJ k.2.1), ("outs", strsJ k.2.2)])).toArray)]
+
+partial def snapInstJ : SnapInst → Json
+  | .comp c => Json.mkObj [("kind", "comp"), ("comp", snapCompJ c)]
+  | .sys pfx sigs lens comps => Json.mkObj [("kind", "sys"), ("pfx", Json.str pfx),
+      ("signals", Json.arr (sigs.map (fun (n, es) => Json.arr #[Json.str n, Json.arr (es.map (fun e =>
+          Json.arr #[Json.str e.1, Json.str e.2.1, Json.bool e.2.2])).toArray])).toArray),
+      ("lengths", Json.arr (lens.map (fun (n, l) => Json.arr #[Json.str n, intJ l])).toArray),
+      ("components", Json.arr (comps.map (fun (n, i) => Json.arr #[Json.str n, snapInstJ i])).toArray)]
+
 def handle? (op : String) (j : Json) : Option Json :=
   match op with
   | "pickle-run" =>
@@ -173,6 +205,20 @@ def handle? (op : String) (j : Json) : Option Json :=
       | none => reject "bad-heap"
       | some h =>
         Json.mkObj [("ok", Json.bool (roundtripB h (nat j "root")))])
+  | "pickle-snapshot" =>
+    some (match (arr j "ops").toList.mapM opOf with
+      | none => reject "bad-ops"
+      | some ops =>
+        match run ops with
+        | .error e => reject e.cls
+        | .ok (h, r) =>
+          match snapshotOfHeap h r with
+          | none => reject "no-snapshot"
+          | some s => Json.mkObj [("ok", snapInstJ s)])
+  | "pickle-supported" =>
+    some (match heapOf ((j.getObjVal? "heap").toOption.getD Json.null) with
+      | none => reject "bad-heap"
+      | some h => Json.mkObj [("ok", Json.bool (supportedB h (nat j "root")))])
   | _ => none
 
 end Pepper.Driver.PickleOps
